@@ -23,6 +23,7 @@ RULE = ('full product: 14 list kinds (single / same layout / nested, interleaved
 ASSUMPTIONS = ['names are compared exactly when the separator mode restores the "|", else after removing "|" (documented treatment)',
                'covariance matrices / gradients to 1e-12 relative (the format prints 15 digits), fluctuations to 1e-13 of the chain scale']
 EXHAUSTIVE = True
+REPEAT = 2      # every case is evaluated twice in the same process: the second verdict must equal the first (call-history oracle)
 CHUNK = 1
 
 
